@@ -13,7 +13,7 @@ def run(ctx):
     ctx.rule = ("cases = CNF x assumptions x solution_limit x luby_factor x budgets from the families listed in scopes; "
                 "contract: every returned assignment satisfies every clause and every assumption, solutions pairwise distinct "
                 "(and never more solutions than the formula has models, where brute force can count them); "
-                + sat_common.ROUND2_RULE +
+                + sat_common.ROUND2_RULE + sat_common.ROUND3_RULE +
                 "non-trivial = the run made >= 1 decision on a formula with > 1 clause, or returned > 1 model; distinct = different (formula or recipe, configuration) / different call sequence")
     ctx.assumptions += ["oracle: direct evaluation of every returned assignment; for `a model exists`: planted witness (checked), "
                         "a returned assignment that passes evaluation, brute force up to 14 variables, z3 above (trusted, time-limited on the size ladder)",
